@@ -491,6 +491,9 @@ pub fn gen_c08(rng: &mut Rng) -> Value {
         if let Some(c) = chunking(rng, len) {
             st["chunks"] = json!(c);
         }
+        if rng.chance(1, 6) {
+            st["vectored"] = json!(true);
+        }
         set_flav(&mut st, flav(rng));
         steps.push(st);
         steps.extend(all_flav_audit(&["metadata", "read", "list"]));
@@ -749,10 +752,19 @@ pub fn gen_c19(rng: &mut Rng) -> Value {
         // the caller changes directory between opening the linker and committing it
         st["chdir_before_commit"] = json!(*rng.pick(&["$R", "$O", "$C"]));
     }
-    set_flav(&mut st, flav(rng));
+    let f0 = flav(rng);
+    set_flav(&mut st, f0);
     steps.push(st);
     if relative && rng.chance(1, 2) {
         steps.push(json!({"k":"chdir","path":"$R"}));
+    }
+    if relative && rng.chance(1, 3) {
+        // the same process links another relative target after its working directory has changed
+        let (cwd2, t2) = *rng.pick(&[("$T/sub", "t1"), ("$T", "sub/t1"), ("$O", "../targets/sub/t1"), ("$T/sub", "./t1")]);
+        steps.push(json!({"k":"chdir","path":cwd2}));
+        let mut l2 = json!({"k":"api","op":"link_to","entry":*rng.pick(&["fn","open","opts"]),"key":1,"target":t2});
+        set_flav(&mut l2, if rng.chance(3, 4) { f0 } else { flav(rng) });
+        steps.push(l2);
     }
     steps.extend(all_flav_audit(&["metadata", "read", "read_hash"]));
     // "put everything back in its place": an extraction whose destination is the linked file itself
@@ -829,7 +841,13 @@ pub fn gen_c20(rng: &mut Rng) -> Value {
     // odd on-disk states
     let nodd = rng.below(3);
     for _ in 0..nodd {
-        let s = match rng.below(13) {
+        let s = match rng.below(15) {
+            13 => {
+                // leftovers next to a bucket file: lock-like, temp-like, backup-like names
+                let key = keys[rng.idx(3)].clone();
+                json!({"k":"env","act":"write_file","bucket_sibling":key,"suffix":*rng.pick(&[".lock", ".tmp", "~", ".new"]),"hex":"","hostile":true})
+            }
+            14 => json!({"k":"env","act":"toplevel_symlink","path":format!("$C/{}", *rng.pick(&["content-v2", "index-v5", "tmp"])),"target":format!("$R/elsewhere{}", rng.below(2)),"hostile":true}),
             11 => json!({"k":"env","act":"insert_line","bucket":rng.below(3),"boundary":rng.below(3),"hex":hex::encode(garbage_line(rng)),"hostile":true}),
             12 => json!({"k":"env","act":"write_file","bucket":rng.below(3),"hex":hex::encode([b"\n".to_vec(), straddle_line(rng)].concat()),"hostile":true}),
             0 => json!({"k":"env","act":"mkdir","bucket":rng.below(3),"hostile":true}),
